@@ -711,6 +711,11 @@ def gen_pitch(rnd, tier):
                 xs.append(rnd.randint(70, 300))
             else:
                 xs.append(round(rnd.uniform(70, 300), 2))
+        if dom == "dec" and rnd.random() < 0.2 and n:
+            # a flat stretch, or a slow drift on a high baseline: spread tiny against the level, where a variance computed as
+            # mean(x^2) - mean(x)^2 cancels catastrophically or goes negative (round 4, C20-mutG)
+            v = rnd.choice([0.1, 199.7, 220.3, 87.3, round(rnd.uniform(70, 300), 1)])
+            xs = [v] * n if rnd.random() < 0.6 else [1e4 + 0.01 * i for i in range(n)]
         yield {"op": "pitch", "xs": xs, "w": rnd.choice([None, None] + list(range(9))), "fz": rnd.random() < 0.6, "grid": dom != "dec"}
 
 
